@@ -220,6 +220,12 @@ func genC13(t *rapid.T) c13Case {
 			log.Recs[i].Head = vGenZoneHead(t, days[i], "zone")
 		}
 	}
+	if layout != "2006-01-02 15:04 -0700" && len(days) > 0 && rapid.IntRange(0, 11).Draw(t, "zeroday") == 0 {
+		// a record dated 0001/01/01: the first day of the calendar, a day like any other
+		i := rapid.IntRange(0, len(days)-1).Draw(t, "zerodayat")
+		days[i] = vZeroDay
+		log.Recs[i].Head = vFmtDay(vZeroDay, layout)
+	}
 	c := c13Case{Book: book, Log: log, Days: days, Layout: layout, TZ: c06Zones[rapid.IntRange(0, len(c06Zones)-1).Draw(t, "tz")]}
 	if rapid.IntRange(0, 5).Draw(t, "deep") == 0 {
 		// a chain nested more deeply than the default limit allows, and a limit that allows it
@@ -454,6 +460,11 @@ func genC14(t *rapid.T) c14Case {
 			}
 		}
 	}
+	if !strings.HasPrefix(layout, "2006-01-02 15:04") && layout != "2 Jan 2006" && len(days) > 0 && rapid.IntRange(0, 11).Draw(t, "zeroday") == 0 {
+		i := rapid.IntRange(0, len(days)-1).Draw(t, "zerodayat")
+		days[i] = vZeroDay
+		log.Recs[i].Head = vFmtDay(vZeroDay, layout)
+	}
 	c := c14Case{Log: log, Days: days, Layout: layout, ViaEnv: rapid.Bool().Draw(t, "viaenv"), ViaCfg: rapid.IntRange(0, 2).Draw(t, "viacfg") == 0, Begin: c07Absent, End: c07Absent}
 	c.TZ = c06Zones[rapid.IntRange(0, len(c06Zones)-1).Draw(t, "tz")]
 	if layout != "2006-01-02 15:04 -0700" && rapid.IntRange(0, 3).Draw(t, "period") == 0 {
@@ -462,6 +473,14 @@ func genC14(t *rapid.T) c14Case {
 			c.End = shift + rapid.IntRange(0, 7).Draw(t, "e")
 		}
 		c.GlobalB, c.GlobalE = rapid.Bool().Draw(t, "globalb"), rapid.Bool().Draw(t, "globale")
+		if layout != "2 Jan 2006" && rapid.IntRange(0, 7).Draw(t, "zerobound") == 0 {
+			// a bound on the first day of the calendar
+			if rapid.Bool().Draw(t, "zeroboundend") {
+				c.End = vZeroDay
+			} else {
+				c.Begin = vZeroDay
+			}
+		}
 	}
 	return c
 }
